@@ -240,8 +240,9 @@ def finish_tok(prop, results, jobs, build, out, tier, seed, wall, oracle, corpus
         for c in r.get("cex", []):
             key = "%s:%s:%s" % (c["grammar"], c["kind"], " ".join(c["argv"]))
             what = "%s on grammar %s argv=%r env=%r: bpaf gives %s, expected %s" % (c["kind"], c["grammar"], c["argv"], c["env"], c.get("native"), c["expected"])
+            fk = c["extra"].get("finding_key") if isinstance(c.get("extra"), dict) else None
             if c.get("reproduced"):
-                out.violation(c.get("finding_key") or key, what, c)
+                out.violation(fk or key, what, c)
             else:
                 out.inconc("NONREPRO %s: predicted %s native %s" % (key, c["predicted"], c.get("native")))
     enc_fns = sorted(k for k in fnh)
